@@ -48,6 +48,8 @@ def spec(self, left, right):
     self._dom = left @ right
     self._cod = right @ left
     self._boxes = [self]
+    self._dagger = False
+    self._data = None
     self._offsets = [0]
     self._layers = RawArrow(left @ right, right @ left, [RawLayer(left[0:0], self, left[0:0])])
     self.draw_as_wires = True
@@ -173,3 +175,32 @@ CONTRACTS['rigid.Diagram.swap'].abstract = _prev
 from .grammar import _consistency as _tie      # noqa: E402
 for _q in ('monoidal.Diagram.swap', 'rigid.Diagram.swap'):
     _tie(_q)
+
+
+# ---------------------------------------------------------------- monoidal.Functor.__call__ on a swap (C04)
+def _functor_swap_branch():
+    def params(ex):
+        F = VFunctor('F')
+        x, y = ex.sym_ty('x'), ex.sym_ty('y')
+        ex.assume(z3.And(z3.Length(x.t) == 1, z3.Length(y.t) == 1))          # class invariant of Swap (proved above)
+        b = _swap_box(ex, x, y)
+        b.extra.update({'left': x, 'right': y})
+        ex._fs = (F, x, y)
+        return [F, b], {}
+
+    def ensures(interp, args, kwargs, result):
+        ex, w = interp.ex, interp.world
+        F, x, y = ex._fs
+        result = w.as_diagram(result)
+        fx, fy = w.functor_ty(interp, F, x.t), w.functor_ty(interp, F, y.t)
+        ex.prove('C04:F(Swap(x, y)).dom == F(x @ y)', T.ty_eq(result.dom.t, w.functor_ty(interp, F, T.ty_concat(x.t, y.t))))
+        ex.prove('C04:F(Swap(x, y)).cod == F(y @ x)', T.ty_eq(result.cod.t, w.functor_ty(interp, F, T.ty_concat(y.t, x.t))))
+        ex.prove('C04:F(Swap(x, y)) is the swap of the images', z3.And(T.ty_eq(result.dom.t, T.ty_concat(fx, fy)),
+                                                                      T.ty_eq(result.cod.t, T.ty_concat(fy, fx))))
+        prove_wf(ex, 'C01:F(Swap)', result)
+    c = Contract('monoidal.Functor.__call__', params=params, ensures=ensures, property_ids=('C04', 'C10', 'C01'))
+    c.label = 'monoidal.Functor.__call__[Swap]'
+    CONTRACTS['monoidal.Functor.__call__[Swap]'] = c
+
+
+_functor_swap_branch()
